@@ -118,6 +118,40 @@ Checks ==
      vals \in {<< <<>>, FALSE >>, << <<VInt(1)>>, FALSE >>, << <<VInt(1), A>>, TRUE >>, << <<A>>, TRUE >>},
      validate \in {<<>>, <<Yes>>, <<No>>, <<PPred("zero", 0)>>, <<Boom>>, <<Yes, No>>, <<Truthy, Yes>>}}
 
+\* hardening: falsy-but-meaningful values as targets, sub-results and defaults (None included, as
+\* an ordinary value), falsy / subclassed containers, values with a hostile ==, and the boundary
+\* values of index and slice steps
+HardTargets ==
+  {VAny, VGrumpy, VC("flist", <<VInt(1)>>), VC("flist", <<>>), VC("fdict", << Entry(A, VInt(1)) >>), VC("fdict", << Entry(A, VInt(0)) >>),
+   VC("ntuple", <<VInt(1)>>), VStr(""), VC("tuple", <<>>), VInt(-1), VBool(FALSE), VC("list", <<VInt(1)>>), VC("list", <<VAny>>),
+   VC("dict", << Entry(A, VC("list", <<>>)) >>), VC("dict", << Entry(A, VNone) >>), VC("list", <<VInt(0), VInt(1)>>)}
+FalsyValues == {VInt(0), VStr(""), VNone, VBool(FALSE), VC("tuple", <<>>), VC("list", <<>>)}
+HardChecks ==
+  {PCheck(<<>>, <<>>, <<>>, FALSE, <<>>, FALSE, NoDef), PCheck(<<>>, <<>>, <<VInt(1)>>, FALSE, <<>>, FALSE, NoDef),
+   PCheck(<<>>, <<>>, <<VInt(0)>>, FALSE, <<>>, FALSE, NoDef), PCheck(<<>>, <<>>, <<VInt(1), A>>, TRUE, <<>>, FALSE, NoDef),
+   PCheckS(<<>>, "tuple", <<>>, <<>>, <<VInt(0), VStr("")>>, TRUE, <<>>, FALSE, NoDef),
+   PCheck(<<"list">>, <<>>, <<>>, FALSE, <<>>, FALSE, NoDef), PCheck(<<>>, <<"list">>, <<>>, FALSE, <<>>, FALSE, NoDef),
+   PCheck(<<"dict">>, <<>>, <<>>, FALSE, <<>>, FALSE, NoDef), PCheck(<<>>, <<"dict", "tuple">>, <<>>, FALSE, <<>>, FALSE, NoDef),
+   PCheck(<<>>, <<>>, <<>>, FALSE, <<Truthy>>, FALSE, NoDef), PCheckS(<<A>>, "list", <<>>, <<>>, <<>>, FALSE, <<>>, FALSE, NoDef)} \cup
+  {PCheck(<<"str">>, <<>>, <<>>, FALSE, <<>>, TRUE, d) : d \in FalsyValues} \cup
+  {PCheck(<<>>, <<>>, <<>>, FALSE, <<No>>, TRUE, d) : d \in {VNone, VInt(0)}}
+HardSpecs ==
+  HardChecks \cup
+  {PMTruthy, PNot(PMTruthy, "ctor"), PNot(PMTruthy, "op"), PM("==", VInt(1)), PM("!=", VInt(1)), PMR("==", VInt(1)), PM("==", VInt(0)),
+   PMSubT(<<A>>), PMSub(<<A>>, "==", VInt(0)), PMSub(<<A>>, "==", VNone), PTGet(<<A>>),
+   \* a falsy result is a result: Or yields the first passing child's, And the last one's, Switch the value spec's
+   POr(<<PVal(VInt(0)), PVal(VInt(1))>>, "ctor", FALSE, NoDef), POr(<<PVal(VNone), PVal(VInt(1))>>, "ctor", FALSE, NoDef),
+   POr(<<PTGet(<<A>>), PVal(VInt(1))>>, "ctor", FALSE, NoDef), PAnd(<<PMTruthy, PVal(VStr(""))>>, "ctor", FALSE, NoDef),
+   PAnd(<<PVal(VInt(0)), PVal(VInt(1))>>, "ctor", FALSE, NoDef),
+   PSwitch(<< <<PVal(VInt(0)), PVal(VNone)>>, <<PMTruthy, PVal(VInt(1))>> >>, FALSE, NoDef),
+   PSwitch(<< <<PM("==", VInt(1)), PVal(VInt(0))>> >>, TRUE, VBool(FALSE)), PSwitch(<< <<PMTruthy, PTGet(<<>>)>> >>, TRUE, VNone)} \cup
+  \* falsy defaults are defaults
+  {POr(<<PM(">", VInt(5))>>, "ctor", TRUE, d) : d \in FalsyValues} \cup {PAnd(<<PM(">", VInt(5))>>, "ctor", TRUE, d) : d \in {VNone, VInt(0)}} \cup
+  {PMatch(PType("str"), TRUE, d) : d \in FalsyValues} \cup
+  \* boundary values of index and slice steps: 0, -1, the length, one beyond
+  {PTGet(<<VInt(i)>>) : i \in {0, 1, 2, -1, -2, -3}} \cup {PTGet(<<VSlice(n)>>) : n \in {0, 1, 2, 3}} \cup
+  {PMSub(<<VSlice(n)>>, "==", VStr("")) : n \in {0, 2}} \cup {PMSub(<<VInt(-1)>>, "==", VInt(1))}
+
 \* construction: Optional(key) / Required(key) over key patterns, and the table of other
 \* documented constructor refusals
 WrapKeys == {PLit(A), PLit(VInt(1)), PType("int"), PType("object"), PTuple(<<PLit(A), PLit(VInt(1))>>),
@@ -153,6 +187,7 @@ ChooseSpec ==
   /\ \/ \E m \in {"auto", "match"} : mode' = m /\ \E p \in Trees(m) : spec' = Label(p, 1)
      \/ mode' = "auto" /\ spec' \in Checks
      \/ mode' = "ctor" /\ spec' \in Ctors
+     \/ mode' = "auto" /\ spec' \in HardSpecs
      \/ \E m \in {"auto", "match"} : mode' = m /\ \E p \in Reused(m) : spec' = Label(p, 1)
   /\ UNCHANGED <<target, pred, target2, pred2>>
 \* under Match(..) the tree is the pattern of a Match wrapper
@@ -160,7 +195,8 @@ Root == IF mode = "match" THEN PMatch(spec, FALSE, VNone) ELSE spec
 ChooseTarget ==
   /\ phase = 1 /\ phase' = 2
   /\ IF mode = "ctor" THEN target' = VNone /\ pred' = CtorPredict(spec)
-     ELSE target' \in Targets /\ pred' = Dumped(Ev("auto", target', Root))
+     ELSE target' \in (IF mode = "auto" /\ spec \in HardSpecs THEN Targets \cup HardTargets ELSE Targets)
+          /\ pred' = Dumped(Ev("auto", target', Root))
   /\ UNCHANGED <<mode, spec, target2, pred2>>
 \* the same spec object once more, on a second target
 \* (the shape of the Reused family, tested structurally: cheaper than membership)
